@@ -17,6 +17,9 @@ from .. import histprops as HP
 
 LEVEL = 'proof'
 NEEDS = ['PyRt', 'PyRtLoop', 'TraversalGenLemmas', 'TraversalGenCyc', 'TraversalGenCycProofs', 'CorrTraversalBase', 'CorrTraversalGenCyc', 'SFValidate', 'CtorAcyclicProofs', 'CtorAcyclicLag', 'Extracted', 'SourceFacts', 'Base', 'Digraph', 'DigraphProofs', 'Names', 'Graph', 'GraphObs', 'GraphTS', 'GraphInv', 'GraphAcyclicLemmas', 'GraphAcyclicProofs']
+# the code translated from the source on every run: when the translator REFUSES the current source the run falls back to the
+# hand-written model and its correspondence (harness/main.py)
+GEN_SOFT = dict(generated=['TraversalGenCyc'], modules=['TraversalGenCyc', 'TraversalGenCycProofs', 'CorrTraversalGenCyc'])
 
 
 def acyclic(nodes, arcs):
